@@ -649,6 +649,10 @@ Proof.
     rewrite (IH _ H2), H1. apply filter_filter.
 Qed.
 
+(* no filter installed: opts.FindPredecessors is src.Predecessors *)
+Lemma find_preds_nil s x : find_preds s [] x = s_preds s x.
+Proof. reflexivity. Qed.
+
 (* opts.FindPredecessors after any stack of filters follows exactly the
    predecessors whose manifest satisfies every filter (same order, same multiplicity) *)
 Lemma find_preds_exact s fs x :
@@ -940,3 +944,50 @@ Definition diamond_source : source :=
                      | 1 => [mkDesc 3 [] None]
                      | _ => [] end)
            (fun _ => KIndex) (fun _ => []) (fun _ => []) (fun _ => None) false.
+
+Definition ex_remote : source :=
+  mkSource (fun x => match x with
+                     | 1 => [mkDesc 2 (b "sbom") (Some [(b "k", b "w")]); mkDesc 4 (b "sig") None]
+                     | _ => [] end)
+           (fun x => match x with 2 => KArtifact | _ => KImage end)
+           (fun x => match x with 2 => b "sbom" | _ => [] end)
+           (fun x => match x with 4 => b "sig" | _ => [] end)
+           (fun x => match x with 2 => Some [(b "k", b "w")] | _ => None end) true.
+
+Lemma ex_acyclic : acyclic_source ex_source (fun x => x).
+Proof.
+  intros x p H. destruct x as [|[|[|[|x]]]]; simpl in H;
+    repeat (destruct H as [<- | H]; [simpl; lia|]); contradiction.
+Qed.
+
+Lemma ex_served_ok : forall x, Forall (served_ok ex_source) (s_preds ex_source x).
+Proof.
+  intros x. destruct x as [|[|[|[|x]]]]; simpl.
+  - repeat constructor. discriminate.
+  - repeat constructor; discriminate.
+  - constructor.
+  - constructor; [|constructor]. split; [|discriminate].
+    split; [right; reflexivity | intro k; reflexivity].
+  - constructor.
+Qed.
+
+Lemma ex_remote_served_ok : forall x, Forall (served_ok ex_remote) (s_preds ex_remote x).
+Proof.
+  intros x. destruct x as [|[|x]]; simpl; try constructor.
+  - split; [split; [right; reflexivity | intro k; reflexivity]|].
+    intros _. split; [reflexivity | intro k; reflexivity].
+  - constructor; [|constructor].
+    split; [split; [right; reflexivity | exact I]|].
+    intros _. split; [reflexivity | intro k; reflexivity].
+Qed.
+
+Lemma diamond_depth_not_exact :
+  option_map (map d_id) (find_roots (fuel_for diamond_source 4) diamond_source [] 2%Z (mkDesc 0 [] None))
+    = Some [1] /\
+  anc_steps diamond_source [] 2 0 3.
+Proof.
+  split; [vm_compute; reflexivity|].
+  apply (pathS _ 1 0 1 3).
+  - apply (pathS _ 0 0 0 1); [constructor | vm_compute; auto].
+  - vm_compute. auto.
+Qed.
